@@ -170,7 +170,23 @@ const TOP_PLACEMENTS = {
   top_const: P(['const t1 = ', 0, ';'], [{ ident: 't1' }]),
   top_plus: P(['var t2 = g1 + ', 0, ';']),
   top_directive_like: P([0, ';']),
-  top_export_default_obj: P(['var t3 = { kk: ', 0, ' };'], [{ ident: 'kk' }])
+  top_export_default_obj: P(['var t3 = { kk: ', 0, ' };'], [{ ident: 'kk' }]),
+  // module declarations: every kind of export holds expressions; module specifiers are not expressions
+  mod_export_default_obj: P(['export default { kk: ', 0, ' };'], [{ ident: 'kk' }]),
+  mod_export_default_lit: P(['export default ', 0, ';']),
+  mod_export_default_arrow: P(['export default (q) => { return q + ', 0, ' };']),
+  mod_export_default_call: P(['export default String(', 0, ');']),
+  mod_export_default_fn: P(['export default function () { return ', 0, ' }']),
+  mod_export_default_class: P(['export default class { m() { return ', 0, ' } }']),
+  mod_export_const: P(['export const t4 = ', 0, ';'], [{ ident: 't4' }]),
+  mod_export_let_obj: P(['export let t5 = { kk: ', 0, ' }, t6 = ', 1, ';'], [{ ident: 'kk' }, { ident: 't6' }]),
+  mod_export_fn: P(['export function ef(q = ', 0, ') { return q }']),
+  mod_export_class: P(['export class EC { static m() { return [', 0, '] } }']),
+  mod_import_source: P(['import ns1 from ', 0, ';'], [{ excluded: true }]),
+  mod_import_bare: P(['import ', 0, ';'], [{ excluded: true }]),
+  mod_export_from: P(['export * from ', 0, ';'], [{ excluded: true }]),
+  mod_export_named_from: P(['export { default as d2 } from ', 0, ';'], [{ excluded: true }]),
+  mod_import_then_use: P(['import ns2 from ', 0, '; export const t7 = ', 1, ';'], [{ excluded: true }, { ident: 't7' }])
 }
 const LAYOUTS = ['same_line', 'own_line', 'after_bmp', 'crlf', 'tabs', 'after_wide', 'after_zero_width']
 // how the literal is SPELLED: the report carries the decoded value, the window counts bytes of the value
